@@ -50,6 +50,16 @@ pub fn generate(r: &mut Rng, allow_slow_algs: bool) -> Gen {
         let l = assertions[0].0.clone();
         assertions.push((l, payload(r)));
     }
+    // a label family now and then: the same label twice, a longer label that contains it, and the
+    // first label again (instance numbering has to keep all of them apart)
+    if claim_version == 2 && r.chance(1, 6) {
+        let base = format!("org.sim.fam{}", r.ident(1, 4));
+        let longer = format!("{base}{}", *r.pick(&[".more", "x", "_b"]));
+        assertions.push((base.clone(), payload(r)));
+        assertions.push((base.clone(), payload(r)));
+        assertions.push((longer, payload(r)));
+        assertions.push((base, payload(r)));
+    }
     let mut list: Vec<Value> = Vec::new();
     let action = if claim_version == 1 {
         json!({ "label": "c2pa.actions", "data": { "actions": [ { "action": "c2pa.created" } ] } })
